@@ -18,6 +18,7 @@ from __future__ import annotations
 import sys
 from pathlib import Path
 
+sys.path.insert(0, str(Path(__file__).parent))
 
 from hunt1 import GW_IP, GW_PORT, automatic_connect  # noqa: E402
 
